@@ -731,7 +731,7 @@ def handle (line : String) : List String :=
   | "Z" :: _ => ["M ok"]
   | ["Y", fmt, _, _, _, _, inp] =>
     match unhex inp with
-    | some b => ["M ok", "S " ++ (if fmt = "fa" then Fa.specStr b else Fq.specStr b)]
+    | some b => ["M ok", "S " ++ (if fmt.startsWith "fa" then Fa.specStr b else Fq.specStr b)]
     | none => ["M bad-case"]
   | _ => ["M bad-case"]
 
